@@ -26,11 +26,11 @@ import (
 
 type c06Backend struct {
 	accepts int64
-	mu    sync.Mutex
-	addr  string
-	ln    net.Listener
-	idx   int
-	hello []byte
+	mu      sync.Mutex
+	addr    string
+	ln      net.Listener
+	idx     int
+	hello   []byte
 }
 
 func (b *c06Backend) serve() {
@@ -107,6 +107,7 @@ func newBlackhole() (string, func()) {
 }
 
 func runC06tcp(line string) string {
+	loadFactor = measureLoad() // the machine's load may have changed since the process started
 	hd := strings.SplitN(line, " # ", 2)
 	f := strings.Fields(hd[0])
 	policy := f[0]
